@@ -2,6 +2,7 @@ package identity
 
 import (
 	"bytes"
+	"crypto"
 	"encoding/json"
 	"fmt"
 	"io"
@@ -222,6 +223,30 @@ func (k *Key) PGPEntity() *openpgp.Entity {
 		PrivateKey: k.private,
 		Identities: map[string]*openpgp.Identity{},
 	}
+	if k.private == nil {
+		// Only the public key: this is what we have for the keys of an identity read from git, when
+		// verifying a signature. AddUserId can't be used as it self-signs with the private key, so set
+		// up by hand the identity and the (unsigned) self-signature that the verification looks at.
+		uid := packet.NewUserId("name", "", "")
+		isPrimary := true
+		e.Identities[uid.Id] = &openpgp.Identity{
+			Name:   uid.Id,
+			UserId: uid,
+			SelfSignature: &packet.Signature{
+				SigType:      packet.SigTypePositiveCert,
+				PubKeyAlgo:   k.public.PubKeyAlgo,
+				Hash:         crypto.SHA256,
+				CreationTime: k.public.CreationTime,
+				IssuerKeyId:  &k.public.KeyId,
+				IsPrimaryId:  &isPrimary,
+				FlagsValid:   true,
+				FlagSign:     true,
+				FlagCertify:  true,
+			},
+		}
+		return e
+	}
+
 	// somehow initialize the proper fields with identity, self-signature ...
 	err := e.AddUserId("name", "", "", nil)
 	if err != nil {
